@@ -415,10 +415,37 @@ theorem argmaxBool_eq {β : Type} [Num β] (q : β → Bool) (xs : List β) (I :
   · exact h
   · rw [c2 _ hI h] at h1; exact absurd h1 (by simp)
 
+theorem timeIdx_of_reached (t : List ℝ) (q : ℝ) (h : ∃ x ∈ t, q ≤ x) : timeIdx t q = timeIdxOld t q := by
+  unfold timeIdx timeIdxOld
+  have : t.any (fun x => decide (q ≤ x)) = true := by
+    rw [List.any_eq_true]
+    obtain ⟨x, hx, hq⟩ := h
+    exact ⟨x, hx, by simpa using hq⟩
+  rw [if_pos this]
+
+/-- beyond the last stored time the repaired accessor reads the LAST stored column -/
+theorem timeIdx_beyond (t : List ℝ) (q : ℝ) (h : ∀ x ∈ t, x < q) : timeIdx t q = t.length - 1 := by
+  unfold timeIdx
+  have : t.any (fun x => decide (q ≤ x)) = false := by
+    rw [List.any_eq_false]
+    intro x hx
+    simpa using h x hx
+  rw [this]; simp
+
+/-- … where the old code read column 0 -/
+theorem timeIdxOld_beyond (t : List ℝ) (q : ℝ) (h : ∀ x ∈ t, x < q) : timeIdxOld t q = 0 := by
+  unfold timeIdxOld
+  apply argmaxBool_none
+  intro x hx
+  simpa using h x hx
+
 /-- an on-grid query time selects its own column -/
 theorem timeIdx_grid (N : Nat) (dt : ℝ) (hdt : 0 < dt) (m : Nat) (hm : m < N) :
     timeIdx (timeVec N dt) (timeAt dt m) = m := by
-  unfold timeIdx
+  rw [timeIdx_of_reached _ _ ⟨timeAt dt m, by
+    rw [Snow.CNT.timeVec_real N hdt]
+    exact List.mem_map.mpr ⟨m, List.mem_range.mpr hm, by simp [timeAt]⟩, le_refl _⟩]
+  unfold timeIdxOld
   rw [Snow.CNT.timeVec_real N hdt]
   refine argmaxBool_eq _ _ m (by simpa using hm) ?_ ?_
   · simp [timeAt]
